@@ -346,26 +346,27 @@ class PointTier(textgrid_tier.TextgridTier):
             newPoint = entry
         newPoint = Point(newPoint.time, newPoint.label.strip())
 
-        matchList = []
-        i = None
-        for i, point in enumerate(self.entries):
-            if point.time == newPoint.time:
-                matchList.append(point)
-                break
+        # A tier can hold several points at the same time (the constructor
+        # allows it); all of them collide with the new point
+        matchList = [point for point in self.entries if point.time == newPoint.time]
+        if len(matchList) > 0:
+            point = matchList[0]
 
         if len(matchList) == 0:
             self._entries.append(newPoint)
 
         elif collisionMode == constants.IntervalCollision.REPLACE:
-            self.deleteEntry(self.entries[i])
+            for matchEntry in matchList:
+                self.deleteEntry(matchEntry)
             self._entries.append(newPoint)
 
         elif collisionMode == constants.IntervalCollision.MERGE:
-            oldPoint = self.entries[i]
+            for matchEntry in matchList:
+                self.deleteEntry(matchEntry)
             mergedPoint = Point(
-                newPoint.time, "-".join([oldPoint.label, newPoint.label])
+                newPoint.time,
+                "-".join([oldPoint.label for oldPoint in matchList] + [newPoint.label]),
             )
-            self.deleteEntry(self._entries[i])
             self._entries.append(mergedPoint)
 
         else:
